@@ -2,7 +2,7 @@
 import re
 
 from report import Rule
-from rules.common import same
+from rules.common import same, xquotes
 from astlib import find_all, find_first, show, show_pat, quotes_in, tok_text, method_chain, walk, tok_find_seq, tok_walk, norm
 
 EXPLANATION = (
@@ -122,7 +122,7 @@ def r1_enum(ctx):
         if ch is None:
             continue
         env, body = closure_env(ch)
-        qs = quotes_in(body) if body is not None else []
+        qs = xquotes(body) if body is not None else []
         res[name] = quote_resolved(qs[0], env) if qs else None
     if res.get("as_str_match_arms") != "<#enum_ident>::<elem.ident>=><elem.name>":
         r.viol("R1:create_locales_enum#as_str-arm", "as_str arm is `%s`, expected `Locale::<key.ident> => <key.name>`" % res.get("as_str_match_arms"), file=fn.file, line=fn.line)
@@ -149,7 +149,7 @@ def r1_enum(ctx):
         if cls:
             c = cls[0]
             t = flat(show(c["body"]))
-            qs = quotes_in(c["body"])
+            qs = xquotes(c["body"])
             qt = flat(tok_text(qs[0]["tokens"])) if qs else ""
             ok = flat(show_pat(c["inputs"][0])) == "(key,ident)" and "letlocale=&key.name" in t and \
                 qt == "const#ident:&l_i18n_crate::reexports::icu::locid::Locale=&l_i18n_crate::reexports::icu::locid::locale!(#locale);"
@@ -160,7 +160,7 @@ def r1_enum(ctx):
     base, ch = src_chain("as_icu_locale_match_arms")
     if ch is not None:
         env, body = closure_env(ch)
-        qs = quotes_in(body) if body is not None else []
+        qs = xquotes(body) if body is not None else []
         got = quote_resolved(qs[0], env) if qs else None
         if got != "<#enum_ident>::<elem.0>=><elem.1>":
             r.viol("R1:create_locales_enum#as_icu_locale-arm", "as_icu_locale arm is `%s`" % got, file=fn.file, line=fn.line)
@@ -172,7 +172,7 @@ def r1_enum(ctx):
         t = flat(show(l["init"]))
         want = ["Some(icu_locid_transform::Direction::LeftToRight)=>quote!(LeftToRight)", "Some(icu_locid_transform::Direction::RightToLeft)=>quote!(RightToLeft)", "_=>quote!(Auto)"]
         miss = [w for w in want if w not in t]
-        qs = [flat(tok_text(q["tokens"])) for q in quotes_in(l["init"])]
+        qs = [flat(tok_text(q["tokens"])) for q in xquotes(l["init"])]
         if miss or "#enum_ident::#locale=>l_i18n_crate::Direction::#dir" not in qs or "|(locale,locid)|" not in t or "matchld.get(locid)" not in t:
             r.viol("R1:create_locales_enum#direction", "direction table changed (missing %s)" % miss, file=fn.file, line=l["line"])
         else:
@@ -189,7 +189,7 @@ def r1_enum(ctx):
     if l is None:
         r.missing("let ts (main template)")
         return r
-    q = quotes_in(l["init"])
+    q = xquotes(l["init"])
     if not q:
         r.missing("main quote! template")
         return r
